@@ -387,6 +387,58 @@ def _build_structure():
     return qs
 
 
+_HASHES = {}
+
+
+def _argon2(pw):
+    import argon2
+
+    if pw not in _HASHES:
+        _HASHES[pw] = argon2.PasswordHasher(time_cost=1, memory_cost=8, parallelism=1).hash(pw)
+    return _HASHES[pw]
+
+
+def h_password_change(X, n_steps):
+    """the real WebAuth addon over a history of `web_password` changes (plaintext / argon2 hash / unset) and login attempts:
+    an attempt is accepted iff it presents the CURRENT password (argon2 verification itself is trusted)"""
+    from mitmproxy.tools.web import webaddons
+
+    class _Opts:
+        web_password = ""
+
+    class _Ctx:
+        options = _Opts()
+
+    saved = webaddons.ctx
+    webaddons.ctx = _Ctx()
+    saved_disable = webaddons.logging.root.manager.disable
+    webaddons.logging.disable(webaddons.logging.CRITICAL)
+    try:
+        wa = webaddons.WebAuth()
+        current = None  # None: random token nobody knows
+        for step in range(n_steps):
+            act = X.choose("step", ["set-plain-p1", "set-hash-p1", "set-hash-p2", "set-plain-p2", "try-p1", "try-p2", "try-other", "stop"])
+            if act == "stop":
+                break
+            if act.startswith("set-"):
+                pw = "pw-one" if act.endswith("p1") else "pw-two"
+                _Opts.web_password = _argon2(pw) if "hash" in act else pw
+                wa.configure({"web_password"})
+                current = pw
+                X.reach("changed")
+            else:
+                attempt = {"try-p1": "pw-one", "try-p2": "pw-two", "try-other": "nope"}[act]
+                got = wa.is_valid_password(attempt)
+                want = current is not None and attempt == current
+                X.reach("accepted" if got else "refused")
+                X.check(got == want, "C46/auth/password-history/" + ("stale-password-accepted" if got else "current-password-refused"),
+                        f"after the password history leading to current={current!r}, is_valid_password({attempt!r}) = {got}")
+    finally:
+        webaddons.ctx = saved
+        webaddons.logging.disable(saved_disable)
+    X.reach("end")
+
+
 def obligations(tier):
     wb = (f"{len(VERBS)} verbs (sync + async) x {len(_auth_headers(SECRET))} Authorization shapes x {len(_tokens(SECRET))} token arguments x "
           f"{len(COOKIES)} cookie states")
@@ -401,6 +453,11 @@ def obligations(tier):
              bounds=f"7 tornado methods x {len(SFS_VALUES)} Sec-Fetch-Site values (incl. absent) x {len(SFS_NAMES)} header-name spellings",
              encoded=ENCODED[3:4], must_reach=["must-refuse", "allowed"]),
     ]
+    n_hist = 4 if tier == "quick" else 5
+    obs.append(Symx("password-history", lambda X: h_password_change(X, n_hist),
+                    bounds=f"every history of <= {n_hist} steps over {{set web_password to plaintext/argon2-hash of p1/p2, attempt p1/p2/other}} through the real WebAuth.configure / is_valid_password",
+                    encoded=ENCODED[:1] + ["mitmproxy.tools.web.webaddons:WebAuth.configure", "mitmproxy.tools.web.webaddons:WebAuth.is_valid_password"],
+                    must_reach=["end", "changed", "accepted", "refused"], parallel_depth=2, stubs=["argon2 hashes computed with minimal cost parameters (argon2 itself trusted)"]))
     if tier != "quick":
         obs.append(Symx("auth-wrapper-non-ascii-secret", lambda X: h_wrapper(X, SECRET2), bounds=wb + " x plaintext secret (non-ASCII web_password)",
                         encoded=ENCODED[:3] + ENCODED[5:], must_reach=["must-refuse", "refused", "accepted/cookie"], stubs=wstubs))
